@@ -111,6 +111,10 @@ class C10(Prop):
                                       header_only=header_only)[0]
         res["url"] = iolib.parse_impl("url", cls, path=path, header_only=header_only)[0]
         res["get"] = iolib.parse_impl("get", None, path=path, header_only=header_only)[0]
+        # the same entry point called the other documented ways (after the four that the model mirrors)
+        res["str_default"] = iolib.parse_impl("str_default", cls, content=text, data_type=ext, header_only=header_only)[0]
+        res["str_positional"] = iolib.parse_impl("str_positional", cls, content=text, data_type=ext, file_name=name,
+                                                 header_only=header_only)[0]
         return res
 
     def run_impl(self, case):
@@ -198,7 +202,9 @@ class C10(Prop):
             if r[0] != "ok":
                 P(f"{entry} fails with {r[1]} on content with line ends {case['eol']!r} and padded lines", "entry/" + entry)
                 continue
-            d = iolib.diff(ref, iolib.canon(r[1]), skip=skip)
+            # the content carries its own `# FILE NAME` line, which every entry point reads (only parse_url keeps
+            # the name of the URL)
+            d = iolib.diff(ref, iolib.canon(r[1]), skip=skip if entry == "url" else ())
             if d:
                 P(f"{entry} on the re-rendered content differs from the canonical parse on {d}", "entry/" + entry)
         for entry, r in obs["header_only"].items():
@@ -208,14 +214,15 @@ class C10(Prop):
             h = r[1]
             if not empty_containers(h):
                 P(f"{entry}(header_only=True) loaded ballots or edges", "header_only/leak")
-            dh = [f for f in iolib.diff({"header": ref["header"]}, {"header": iolib.canon(h)["header"]}, skip=skip)]
+            dh = [f for f in iolib.diff({"header": ref["header"]}, {"header": iolib.canon(h)["header"]},
+                                         skip=skip if entry == "url" else ())]
             keys = {"ord": ["num_unique"], "cat": ["num_unique", "num_categories", "categories_name"], "mat": ["num_edges"]}[h["cls"]]
             dh += [k for k in keys if iolib.canon(h)[k] != ref[k]]
             if dh:
                 P(f"{entry}(header_only=True) differs in metadata/counts {dh}", "header_only/" + entry)
         # model
         names = ["file", "str", "url", "get"]
-        for k, rep in enumerate(replies):
+        for k, rep in enumerate(replies[:8]):
             entry, ho = names[k % 4], k >= 4
             r = (obs["header_only"] if ho else obs["full"])[entry]
             if ("ok" in rep) != (r[0] == "ok"):
